@@ -85,6 +85,11 @@ let handle (line : string) : string =
       let o = oracle o in
       let (((f, m), rest), s) = pwrite_loop 0 o (unhex file) (unhex data) (nat_of_int (int_of_string off)) in
       status s ^ " " ^ hex f ^ " " ^ string_of_int (int_of_nat m) ^ " " ^ calls o rest
+  | ["SN"; file; o] ->
+      let o = oracle o in
+      let (((g, _), rest), s) = sniff_magic o (unhex file) in
+      (* the implementation hands the header out only when the constructor returned normally *)
+      status s ^ " " ^ (if s = Ok then hex g else "-") ^ " " ^ calls o rest
   | ["S"; _; _; o] ->
       let o = oracle o in
       let (rest, s) = single_call o in
